@@ -80,7 +80,10 @@ def orders(case):
     nc = dict(case, order=list(perm))
     cohort = [pop[i] for i in perm]
     state = alg.init(algos.jparams())
-    new_state, want_p, _ = check_round(alg, c_ref, s_ref, h, state, p0, s_ref.init(p0), cohort, 'round', nc)
+    what = 'round'
+    if case.get('abort_first') and algos.aborted_round(alg, state, cohort):
+      what = 'retry after a round that aborted at its last client'
+    new_state, want_p, _ = check_round(alg, c_ref, s_ref, h, state, p0, s_ref.init(p0), cohort, what, nc)
     got = {k: np.asarray(v, np.float64) for k, v in new_state.params.items()}
     if sum(sizes) == 0:
       for k in got:
@@ -164,7 +167,8 @@ def plan(ctx):
   pops = [list(p) for n in (1, 2, 3) for p in itertools.product(SIZES, repeat=n)]
   if not th:
     pops = [p for p in pops if len(p) <= 2 or (0 in p and len(set(p)) > 1) or p in ([5, 3, 2], [1, 1, 1], [0, 0, 0])]
-  ctx.pmap('orders', [{'sizes': p, 'seed': s} for p in pops], chunk=6)
+  ctx.pmap('orders', [{'sizes': p, 'seed': s, 'abort_first': len(p) >= 2 and sum(1 for x in p if x) >= 2 and sum(p) % 2 == 1}
+                      for p in pops], chunk=6)
   bc = []
   for sizes in ([3], [0, 5], [2, 0, 3]):
     for b in (1, 2, 3):
